@@ -50,7 +50,7 @@ theorem build_spec {fl : α → Int} (feats : List (List (α × α))) (res : Opt
     (hm : 0 ≤ margin) (hb : build fl feats res margin = .ok ix) :
     WF ix ∧ (∀ t ∈ feats, ∀ p ∈ t, getCell ix p ≠ none) ∧
     (∀ k t, feats[k]? = some t → ∀ A B, (A, B) ∈ Consec t → ∀ pA pB, getCell ix A = some pA → getCell ix B = some pB →
-      ∀ cell ∈ cellsCross fl pA pB, Holds ix.grid cell.1 cell.2 k) ∧
+      ∀ cell ∈ cellsCross fl ix.csize ix.lsize pA pB, Holds ix.grid cell.1 cell.2 k) ∧
     (∀ t ∈ feats, Consec t ≠ [] → NZ ix) := by
   unfold build at hb
   cases hbb : bboxOf feats.flatten with
@@ -69,34 +69,9 @@ theorem build_spec {fl : α → Int} (feats : List (List (α × α))) (res : Opt
       refine ⟨w, ?_, ?_, fun t ht hne => (NZ_same e.1).mpr (z t ht hne)⟩
       · intro t ht p hp; rw [getCell_same e.1]; exact hin0 t ht p hp
       · intro k t hk A B hAB pA pB hA hB cell hcell
-        have := r k t hk A B hAB pA pB (by rw [← getCell_same e.1]; exact hA) (by rw [← getCell_same e.1]; exact hB) cell hcell
+        have := r k t hk A B hAB pA pB (by rw [← getCell_same e.1]; exact hA) (by rw [← getCell_same e.1]; exact hB) cell
+          (by rw [← e.1.2.2.2.2.1, ← e.1.2.2.2.2.2.1]; exact hcell)
         simpa using this
-
-/-- every point of every segment of feature `k` lies in a cell that lists `k` -/
-theorem build_registers {fl : α → Int} (hf : IsFloor fl) (feats : List (List (α × α))) (res : Option (α × α))
-    (margin : α) (ix : Index α) (hm : 0 ≤ margin) (hb : build fl feats res margin = .ok ix)
-    (k : Nat) (t : List (α × α)) (hk : feats[k]? = some t) (A B : α × α) (hAB : (A, B) ∈ Consec t)
-    (s : α) (hs0 : 0 ≤ s) (hs1 : s ≤ 1) :
-    ∃ c, getCell ix (lerp A B s) = some c ∧ Holds ix.grid (fl c.1) (fl c.2) k := by
-  obtain ⟨_, hin, hreg, _⟩ := build_spec feats res margin ix hm hb
-  have ht : t ∈ feats := List.mem_of_getElem? hk
-  have memAB : A ∈ t ∧ B ∈ t := by
-    clear hk ht hin hreg
-    induction t with
-    | nil => simp [Consec] at hAB
-    | cons a rest ih =>
-      cases rest with
-      | nil => simp [Consec] at hAB
-      | cons b rest' =>
-        simp only [Consec, List.mem_cons, Prod.mk.injEq] at hAB
-        rcases hAB with ⟨rfl, rfl⟩ | hAB
-        · simp
-        · have := ih hAB
-          exact ⟨List.mem_cons_of_mem _ this.1, List.mem_cons_of_mem _ this.2⟩
-  obtain ⟨pA, hpA⟩ := Option.ne_none_iff_exists'.mp (hin t ht A memAB.1)
-  obtain ⟨pB, hpB⟩ := Option.ne_none_iff_exists'.mp (hin t ht B memAB.2)
-  refine ⟨lerp pA pB s, getCell_lerp ix A B pA pB s hs0 hs1 hpA hpB, ?_⟩
-  exact hreg k t hk A B hAB pA pB hpA hpB _ (cellsCross_complete hf pA pB s hs0 hs1)
 
 end TV.Grid
 
@@ -173,5 +148,45 @@ theorem floor_index_range {fl : α → Int} (hf : IsFloor fl) (o hi dC x : α) (
       rw [div_lt_iff₀ hdC]; linarith [mul_comm dC ((n : Int) : α)]
     have h4 : ((fl ((x - o) / dC) : Int) : α) < ((n : Int) : α) := lt_of_le_of_lt (hf _).1 h3
     exact_mod_cast h4
+
+/-- on a built index the fractional indices of a point of the extent lie in `[0, csize] × [0, lsize]` -/
+theorem getCell_range {fl : α → Int} (hf : IsFloor fl) (feats : List (List (α × α))) (res : Option (α × α)) (margin : α)
+    (ix : Index α) (hm : 0 ≤ margin) (hres : ∀ r, res = some r → 0 < r.1 ∧ 0 < r.2)
+    (hb : build fl feats res margin = .ok ix) (p c : α × α) (hp : getCell ix p = some c) :
+    (0 ≤ c.1 ∧ c.1 ≤ ((ix.csize : Int) : α)) ∧ (0 ≤ c.2 ∧ c.2 ≤ ((ix.lsize : Int) : α)) := by
+  obtain ⟨hcs, hls, hdX, hdY, tX, tY, _, _⟩ := build_grid hf feats res margin ix hm hres hb
+  obtain ⟨a1, a2, rfl⟩ := (getCell_some_iff ix p c).mp hp
+  exact ⟨frac_index_range ix.xmin ix.xmax ix.dX p.1 ix.csize hdX hcs tX a1.1 a1.2,
+    frac_index_range ix.ymin ix.ymax ix.dY p.2 ix.lsize hdY hls tY a2.1 a2.2⟩
+
+/-- every point of every segment of feature `k` lies in a cell (`cellOf`: the last column / row closed on the upper
+border) that lists `k` -/
+theorem build_registers {fl : α → Int} (hf : IsFloor fl) (feats : List (List (α × α))) (res : Option (α × α))
+    (margin : α) (ix : Index α) (hm : 0 ≤ margin) (hres : ∀ r, res = some r → 0 < r.1 ∧ 0 < r.2)
+    (hb : build fl feats res margin = .ok ix)
+    (k : Nat) (t : List (α × α)) (hk : feats[k]? = some t) (A B : α × α) (hAB : (A, B) ∈ Consec t)
+    (s : α) (hs0 : 0 ≤ s) (hs1 : s ≤ 1) :
+    ∃ c, getCell ix (lerp A B s) = some c ∧ Holds ix.grid (cellOf fl ix c).1 (cellOf fl ix c).2 k := by
+  obtain ⟨_, hin, hreg, _⟩ := build_spec feats res margin ix hm hb
+  have ht : t ∈ feats := List.mem_of_getElem? hk
+  have memAB : A ∈ t ∧ B ∈ t := by
+    clear hk ht hin hreg
+    induction t with
+    | nil => simp [Consec] at hAB
+    | cons a rest ih =>
+      cases rest with
+      | nil => simp [Consec] at hAB
+      | cons b rest' =>
+        simp only [Consec, List.mem_cons, Prod.mk.injEq] at hAB
+        rcases hAB with ⟨rfl, rfl⟩ | hAB
+        · simp
+        · have := ih hAB
+          exact ⟨List.mem_cons_of_mem _ this.1, List.mem_cons_of_mem _ this.2⟩
+  obtain ⟨pA, hpA⟩ := Option.ne_none_iff_exists'.mp (hin t ht A memAB.1)
+  obtain ⟨pB, hpB⟩ := Option.ne_none_iff_exists'.mp (hin t ht B memAB.2)
+  have hP := getCell_lerp ix A B pA pB s hs0 hs1 hpA hpB
+  obtain ⟨r1, r2⟩ := getCell_range hf feats res margin ix hm hres hb _ _ hP
+  refine ⟨lerp pA pB s, hP, ?_⟩
+  exact hreg k t hk A B hAB pA pB hpA hpB _ (cellsCross_complete hf ix.csize ix.lsize pA pB s hs0 hs1 r1.2 r2.2)
 
 end TV.Grid
